@@ -3,6 +3,8 @@ package main
 import (
 	"fmt"
 
+	"gonum.org/v1/gonum/blas"
+	blasgonum "gonum.org/v1/gonum/blas/gonum"
 	"gonum.org/v1/gonum/internal/asm/f32"
 	"gonum.org/v1/gonum/internal/asm/f64"
 	"gonum.org/v1/gonum/internal/verif/vlib"
@@ -21,24 +23,63 @@ import (
 
 type geKernels[T num] struct {
 	name  string
+	maxQ  int  // largest m, n in the quick tier
+	maxT  int  // largest m, n in the thorough tier
+	noNeg bool // the Ger of this set does not accept negative increments in this build
+
 	ger   func(m, n uintptr, alpha T, x []T, incX uintptr, y []T, incY uintptr, a []T, lda uintptr)
 	gemvN func(m, n uintptr, alpha T, a []T, lda uintptr, x []T, incX uintptr, beta T, y []T, incY uintptr)
 	gemvT func(m, n uintptr, alpha T, a []T, lda uintptr, x []T, incX uintptr, beta T, y []T, incY uintptr)
 }
 
+// asmBuild reports whether the assembly kernels are compiled in.
+func asmBuild() bool { return vlib.Env("VERIF_CONFIG", "default") == "default" }
+
+// The amd64 assembly Ger kernels do not support negative increments (stated at
+// their only call site, Dger/Sger, which handles negative increments itself);
+// the pure-Go kernels do. Negative increments are therefore enumerated for the
+// kernel in the noasm and safe builds only, and for the public Dger/Sger
+// (geBlas64, geBlas32) in every build.
 func geF64() *geKernels[float64] {
-	return &geKernels[float64]{name: "f64", ger: f64.Ger, gemvN: f64.GemvN, gemvT: f64.GemvT}
+	return &geKernels[float64]{name: "f64", maxQ: 13, maxT: 19, noNeg: asmBuild(), ger: f64.Ger, gemvN: f64.GemvN, gemvT: f64.GemvT}
 }
 
 func geF32() *geKernels[float32] {
-	return &geKernels[float32]{name: "f32", ger: f32.Ger, gemvN: f32.GemvN, gemvT: f32.GemvT}
+	return &geKernels[float32]{name: "f32", maxQ: 13, maxT: 19, noNeg: asmBuild(), ger: f32.Ger, gemvN: f32.GemvN, gemvT: f32.GemvT}
 }
 
-// Finding classes of the defects found by this harness in GemvT and Ger (see NOTES.md).
-const (
-	gemvTClass = "gemvT-beta0-clears-whole-y"
-	gerClass   = "ger-asm-negative-inc"
-)
+// geBlas64 and geBlas32 drive the same enumeration through the public BLAS
+// entry points Dger/Dgemv and Sger/Sgemv.
+func geBlas64() *geKernels[float64] {
+	var impl blasgonum.Implementation
+	return &geKernels[float64]{name: "blas64", maxQ: 9, maxT: 13,
+		ger: func(m, n uintptr, alpha float64, x []float64, incX uintptr, y []float64, incY uintptr, a []float64, lda uintptr) {
+			impl.Dger(int(m), int(n), alpha, x, int(incX), y, int(incY), a, int(lda))
+		},
+		gemvN: func(m, n uintptr, alpha float64, a []float64, lda uintptr, x []float64, incX uintptr, beta float64, y []float64, incY uintptr) {
+			impl.Dgemv(blas.NoTrans, int(m), int(n), alpha, a, int(lda), x, int(incX), beta, y, int(incY))
+		},
+		gemvT: func(m, n uintptr, alpha float64, a []float64, lda uintptr, x []float64, incX uintptr, beta float64, y []float64, incY uintptr) {
+			impl.Dgemv(blas.Trans, int(m), int(n), alpha, a, int(lda), x, int(incX), beta, y, int(incY))
+		}}
+}
+
+func geBlas32() *geKernels[float32] {
+	var impl blasgonum.Implementation
+	return &geKernels[float32]{name: "blas32", maxQ: 9, maxT: 13,
+		ger: func(m, n uintptr, alpha float32, x []float32, incX uintptr, y []float32, incY uintptr, a []float32, lda uintptr) {
+			impl.Sger(int(m), int(n), alpha, x, int(incX), y, int(incY), a, int(lda))
+		},
+		gemvN: func(m, n uintptr, alpha float32, a []float32, lda uintptr, x []float32, incX uintptr, beta float32, y []float32, incY uintptr) {
+			impl.Sgemv(blas.NoTrans, int(m), int(n), alpha, a, int(lda), x, int(incX), beta, y, int(incY))
+		},
+		gemvT: func(m, n uintptr, alpha float32, a []float32, lda uintptr, x []float32, incX uintptr, beta float32, y []float32, incY uintptr) {
+			impl.Sgemv(blas.Trans, int(m), int(n), alpha, a, int(lda), x, int(incX), beta, y, int(incY))
+		}}
+}
+
+// Finding class of the defect found by this harness in GemvT (see NOTES.md; fixed in /repo by a9a03e5).
+const gemvTClass = "gemvT-beta0-clears-whole-y"
 
 func vecLen(n, inc, tail int) int { return (n-1)*absInt(inc) + 1 + tail }
 
@@ -52,7 +93,7 @@ func vecStart(n, inc int) int {
 func genGe[T num](k *geKernels[T]) func(g *vlib.G) {
 	return func(g *vlib.G) {
 		ab := newAlphabet[T]()
-		maxMN := vlib.Pick(g, 13, 19)
+		maxMN := vlib.Pick(g, k.maxQ, k.maxT)
 		incs := []int{1, 2, 3, -1, -2}
 		for fn := 0; fn < 3; fn++ {
 			fname := k.name + "." + []string{"Ger", "GemvN", "GemvT"}[fn]
@@ -61,6 +102,9 @@ func genGe[T num](k *geKernels[T]) func(g *vlib.G) {
 					for _, pad := range []int{0, 1, 5} {
 						for _, incX := range incs {
 							for _, incY := range incs {
+								if fn == 0 && k.noNeg && (incX < 0 || incY < 0) {
+									continue
+								}
 								for _, pl := range []int{(m + n) % 8, plEnd, plStart} {
 									fn, m, n, pad, incX, incY, pl := fn, m, n, pad, incX, incY, pl
 									g.Case(fmt.Sprintf("%s m=%d n=%d lda=n+%d incX=%d incY=%d pl=%s", fname, m, n, pad, incX, incY, plName(pl)), func(t *vlib.T) {
@@ -83,10 +127,6 @@ func genGe[T num](k *geKernels[T]) func(g *vlib.G) {
 														// known finding: keep evaluating the rest of the case
 														t.FailClass(gemvTClass, "%s", full)
 														continue
-													}
-													if fn == 0 && (incX < 0 || incY < 0) {
-														t.FailClass(gerClass, "%s", full)
-														return
 													}
 													t.Failf("%s", full)
 													return
